@@ -3,6 +3,7 @@
   Property theorems only (helper lemmas live in LtVerif/Proofs).
 -/
 import LtVerif.Proofs.Path
+import LtVerif.Proofs.Docroot
 namespace LtVerif.C02
 open LtVerif B
 
@@ -57,5 +58,466 @@ theorem c02_simplify_no_dot_segment (s : Bytes) (h : s.head? = some slash) :
 /-- non-vacuity: a traversal attempt is absolute and is collapsed to the root -/
 example : pathSimplify (ofString "/a/../../etc/./passwd") = ofString "/etc/passwd" := by decide
 example : (ofString "/a/../../etc/./passwd").head? = some slash := by decide
+
+/-! ## extension: every way a filesystem path is derived -/
+
+/-- whenever buffer_path_simplify() returns something starting with '/', it is canonical - also for
+    inputs that do not start with '/' (an X-Sendfile value "a/../../etc" becomes "/etc") -/
+theorem c02_simplify_abs_result_canonical (s : Bytes) (h : (pathSimplify s).head? = some slash) :
+    CanonicalAbs (pathSimplify s) :=
+  pathSimplify_head_canonical s h
+
+example : pathSimplify (ofString "a/../../etc/x") = ofString "/etc/x" := by decide
+
+/-- buffer_path_simplify() is idempotent on absolute paths (canonical paths are fixed points) -/
+theorem c02_simplify_idempotent (s : Bytes) (h : s.head? = some slash) :
+    pathSimplify (pathSimplify s) = pathSimplify s :=
+  pathSimplify_canonical_fix (c02_simplify_canonical s h)
+
+example : pathSimplify (pathSimplify (ofString "/a//b/./../c/")) = ofString "/a/c/" := by decide
+
+/-- http_request_parse_target(): for every request-target and every parse option set, an accepted
+    request has a canonical absolute url-path ("/" seg "/" ..., no empty, "." or ".." segment) -/
+theorem c02_uri_path_canonical (o : Opts) (t : Bytes) (u : Target)
+    (h : parseTarget o false t = .ok u) : CanonicalAbs u.path := by
+  unfold parseTarget at h
+  simp only [Bool.false_eq_true, if_false] at h
+  split at h
+  · simp at h
+  · simp only at h
+    split at h
+    · rename_i hhead
+      simp only [Except.ok.injEq] at h
+      subst h
+      exact pathSimplify_head_canonical _ hhead
+    · simp at h
+
+example : (parseTarget ⟨9567⟩ false (ofString "/a/%2e%2e/%2E./etc/passwd?x")).map (·.path)
+    = .ok (ofString "/etc/passwd") := by decide
+
+/-- buffer_urldecode_path(): a byte of the result is a byte of the input or a decoded byte that is
+    not a control character (control bytes are mapped to '_') -/
+theorem c02_decode_no_ctl : ∀ (s : Bytes), ∀ b ∈ urldecodePath s, b ∈ s ∨ (32 ≤ b ∧ b ≠ 127) := by
+  intro s
+  induction s using urldecodePath.induct with
+  | case1 => simp [urldecodePath]
+  | case2 b => simp [urldecodePath]
+  | case3 a b ih =>
+    intro x hx
+    simp only [urldecodePath, List.mem_cons] at hx
+    rcases hx with e | e
+    · left; simp [e]
+    · rcases ih x e with h | h
+      · left; simp only [List.mem_cons] at h ⊢; right; exact h
+      · right; exact h
+  | case4 h l rest hv lv hh hl ih =>
+    intro x hx
+    simp only [urldecodePath, hh, hl, if_true, List.mem_cons] at hx
+    rcases hx with e | e
+    · subst e
+      unfold decodeByte
+      simp only
+      split
+      · rename_i hc
+        right
+        simp only [Bool.and_eq_true, decide_eq_true_eq] at hc
+        exact ⟨hc.1, hc.2⟩
+      · right; decide
+    · rcases ih x e with h' | h'
+      · left; simp [h']
+      · right; exact h'
+  | case5 h l rest hn ih =>
+    intro x hx
+    have : urldecodePath (pct :: h :: l :: rest) = pct :: urldecodePath (h :: l :: rest) := by
+      rw [urldecodePath]
+      simp only [if_true]
+      split
+      · rename_i hv lv hh hl; exact absurd ⟨hh, hl⟩ (by simpa using hn hv lv)
+      · rfl
+    rw [this] at hx
+    simp only [List.mem_cons] at hx
+    rcases hx with e | e
+    · left; simp [e]
+    · rcases ih x e with h' | h'
+      · left; simp only [List.mem_cons] at h' ⊢; right; exact h'
+      · right; exact h'
+  | case6 b h l rest hb ih =>
+    intro x hx
+    simp only [urldecodePath, hb, if_false, List.mem_cons] at hx
+    rcases hx with e | e
+    · left; simp [e]
+    · rcases ih x e with h' | h'
+      · left; simp only [List.mem_cons] at h' ⊢; right; exact h'
+      · right; exact h'
+
+example : urldecodePath (ofString "/a%00%1f%7f%2e") = ofString "/a___." := by decide
+
+/-- request_check_hostname() (host-strict, the default): an accepted host contains no '/', and its
+    name part (before the port) is one clean path segment: not empty, not "." or "..", no '/';
+    for hosts other than "[...]" literals every '.'-separated label is non-empty -/
+theorem c02_host_single_segment (h h' : Bytes) (hh : hostPolicyPlain true h = some h') :
+    slash ∉ h' ∧ Clean (hostPart h') ∧
+    (h'.head? ≠ some 91 → ∀ seg ∈ splitOn dot (hostPart h'), seg ≠ []) := by
+  unfold hostPolicyPlain at hh
+  simp only [if_true] at hh
+  split at hh
+  · obtain ⟨h1, h2⟩ := checkHostnameV6_spec hh
+    refine ⟨h1, ?_, fun hn => absurd h2 hn⟩
+    have hsub := hostPart_subset h'
+    have hhead : (hostPart h').head? = some 91 := by
+      unfold hostPart
+      cases h' with
+      | nil => simp at h2
+      | cons x xs =>
+        simp only [List.head?_cons, Option.some.injEq] at h2
+        subst h2
+        simp [List.takeWhile_cons, colon]
+    refine ⟨?_, ?_, ?_, fun hm => h1 (hsub _ hm)⟩
+    · intro e; simp [e] at hhead
+    · intro e; rw [e] at hhead; simp [segDot] at hhead
+    · intro e; rw [e] at hhead; simp [segDotDot] at hhead
+  · obtain ⟨h1, h2, h3⟩ := checkHostnameV4_clean hh
+    exact ⟨h1, h2, fun _ => h3⟩
+
+example : hostPolicyPlain true (ofString "www.example.org.:8080") = some (ofString "www.example.org:8080") := by
+  decide
+example : hostPolicyPlain true (ofString "..") = none ∧ hostPolicyPlain true (ofString "a/../b") = none ∧
+    hostPolicyPlain true (ofString "a..b") = none := by decide
+
+/-- without host-strict the policy only refuses NUL, CR and LF: the host is passed on unchanged and
+    may contain '/' and ".." (see the witness below) - the vhost modules have to guard themselves -/
+theorem c02_host_lenient_guarantee (h h' : Bytes) (hh : hostPolicyPlain false h = some h') :
+    h' = h ∧ (0 : UInt8) ∉ h' ∧ cr ∉ h' ∧ lf ∉ h' := by
+  unfold hostPolicyPlain at hh
+  simp only [Bool.false_eq_true, if_false] at hh
+  split at hh
+  · simp at hh
+  · rename_i hany
+    simp only [Option.some.injEq] at hh
+    subst hh
+    simp only [List.any_eq_true, Bool.or_eq_true, decide_eq_true_eq, not_exists, not_and, not_or] at hany
+    exact ⟨rfl, fun hm => (hany _ hm).1.1 rfl, fun hm => (hany _ hm).1.2 rfl, fun hm => (hany _ hm).2 rfl⟩
+
+/-- witness: the lenient policy admits a traversal text as host -/
+theorem c02_host_lenient_admits_dotdot :
+    hostPolicyPlain false (ofString "../../etc") = some (ofString "../../etc") := by decide
+
+/-- mod_simple_vhost: whenever the request host is used (strict mode: a host the policy accepted;
+    lenient mode: the module's own guard), the doc root is server-root ++ one path segment ++ the
+    configured document-root, and that segment contains no '/' and is neither "." nor ".." -/
+theorem c02_vhost_docroot_single_segment (strict : Bool) (raw a sroot : Bytes) (droot : Option Bytes)
+    (hg : svhostGuard strict a = true)
+    (hp : strict = true → hostPolicyPlain true raw = some a) :
+    slash ∉ hostPart a ∧ hostPart a ≠ segDot ∧ hostPart a ≠ segDotDot ∧
+    svhostPath sroot (some a) droot =
+      (match droot with
+       | some d => pathAppend (sroot ++ hostPart a) d
+       | none => appendSlash (sroot ++ hostPart a)) := by
+  cases strict with
+  | true =>
+    obtain ⟨_, hc, _⟩ := c02_host_single_segment raw a (hp rfl)
+    exact ⟨hc.2.2.2, hc.2.1, hc.2.2.1, by cases droot <;> rfl⟩
+  | false =>
+    unfold svhostGuard at hg
+    simp only [Bool.false_or, Bool.and_eq_true, Bool.not_eq_true', bne_iff_ne, ne_eq,
+               decide_eq_true_eq, decide_not] at hg
+    obtain ⟨_, hhead, hns⟩ := hg
+    have hns' : slash ∉ a := by simpa using hns
+    have hsub := hostPart_subset a
+    have hh : (hostPart a).head? ≠ some dot := by
+      rcases hostPart_head a with e | e
+      · rw [e]; simp
+      · rw [e]; exact hhead
+    refine ⟨fun hm => hns' (hsub _ hm), ?_, ?_, by cases droot <;> rfl⟩
+    · intro e; rw [e] at hh; simp [segDot] at hh
+    · intro e; rw [e] at hh; simp [segDotDot] at hh
+
+example : svhostGuard false (ofString "..") = false ∧ svhostGuard false (ofString "a/../..") = false ∧
+    svhostPath (ofString "/vh/") (some (ofString "www.example.org:81")) (some (ofString "/htdocs/"))
+      = ofString "/vh/www.example.org/htdocs/" := by decide
+
+/-- number of '/' the literal parts of an evhost pattern contain -/
+def litSlashes (pieces : List EvPiece) : Nat :=
+  (pieces.map fun p => match p with | .lit s => s.count slash | _ => 0).sum
+
+/-- mod_evhost: nothing taken from the host adds a path separator - the doc root has the '/' of the
+    pattern text (plus the trailing one), for every pattern and every host without '/' (strict mode:
+    guaranteed by the host policy; lenient mode: by the module's guard) -/
+theorem c02_evhost_no_separator (pieces : List EvPiece) (a : Bytes) (ha : slash ∉ a) :
+    (∀ p ∈ pieces, (∀ s, p ≠ .lit s) → slash ∉ evPieceValue (evParseHost a) a p) ∧
+    (evBuildPath pieces a).count slash ≤ litSlashes pieces + 1 := by
+  have hpiece : ∀ p : EvPiece, (∀ s, p ≠ .lit s) → slash ∉ evPieceValue (evParseHost a) a p := by
+    intro p hp hm
+    rcases evPieceValue_bytes a p hp slash hm with e | e
+    · exact ha e
+    · exact absurd e (by decide)
+  refine ⟨fun p _ => hpiece p, ?_⟩
+  have hflat : ((pieces.map (evPieceValue (evParseHost a) a)).flatten).count slash = litSlashes pieces := by
+    unfold litSlashes
+    rw [List.count_flatten, List.map_map]
+    congr 1
+    apply List.map_congr_left
+    intro p _
+    cases p with
+    | lit s => simp [evPieceValue]
+    | pct => exact List.count_eq_zero.mpr (hpiece _ (by simp))
+    | fqdn => exact List.count_eq_zero.mpr (hpiece _ (by simp))
+    | idx n => exact List.count_eq_zero.mpr (hpiece _ (by simp))
+    | sub n m => exact List.count_eq_zero.mpr (hpiece _ (by simp))
+  unfold evBuildPath appendSlash
+  simp only
+  split
+  · rw [List.count_append, hflat]; simp
+  · rw [hflat]; omega
+
+/-- mod_evhost: the labels %1, %2, ... of a host that does not start with '.' (strict mode: host
+    policy; lenient mode: the module's guard) are clean path segments -/
+theorem c02_evhost_label_clean (a : Bytes) (n : Nat) (v : Bytes) (hd : a.head? ≠ some dot)
+    (hs : slash ∉ a) (hn : 1 ≤ n) (hl : evLookup (evParseHost a) n = some v) : Clean v := by
+  have hm := evLookup_mem hl
+  obtain ⟨h1, h2⟩ := evParseHost_labels a hd _ hm hn
+  have h3 := evParseHost_subset a _ hm
+  refine ⟨h1, ?_, ?_, fun e => hs (h3 _ e)⟩
+  · intro e; exact h2 (by simp [e, segDot])
+  · intro e; exact h2 (by simp [e, segDotDot])
+
+example : evBuildPath ((evParsePattern (ofString "/web/%3/%0/%{2.1}/")).getD []) (ofString "host.example.org:81")
+    = ofString "/web/host/example.org/e/" := by decide
+
+/-- full statement (mod_evhost doc roots never contain a "." or ".." segment taken from the host) holds
+    in strict mode; in lenient mode %0 can be "." (host "a.."): a harmless "." segment, never "..".
+    Witness of the lenient quirk: -/
+theorem c02_evhost_lenient_dot_witness :
+    evhostGuard false (ofString "a..") = true ∧
+    evBuildPath ((evParsePattern (ofString "/vh/%0/htdocs/")).getD []) (ofString "a..")
+      = ofString "/vh/./htdocs/" := by decide
+
+/-- http_response_prepare(): physical.path = doc_root + rel_path.  For a canonical url-path the result
+    is the doc root (without its trailing '/') followed by a canonical absolute path: lexically under
+    the doc root, also with force-lowercase-filenames -/
+theorem c02_docroot_contained (lc : Bool) (root u : Bytes) (hu : CanonicalAbs u) :
+    ∃ r, CanonicalAbs r ∧ physicalPath lc root u = stripSlash root ++ r ∧
+      r = (if lc then lowerBytes u else u) := by
+  have hr : CanonicalAbs (if lc then lowerBytes u else u) := by
+    cases lc
+    · simpa using hu
+    · simpa [lowerBytes] using canonical_map_toLower hu
+  exact ⟨_, hr, by unfold physicalPath; exact pathAppend_abs root (canonical_head hr), rfl⟩
+
+example : physicalPath true (ofString "/srv/www/") (ofString "/Sub/Index.HTML")
+    = ofString "/srv/www/sub/index.html" := by decide
+
+/-- request to physical path without vhost / alias: every accepted request-target, under every
+    parse option set, is mapped lexically under the document root -/
+theorem c02_request_contained (o : Opts) (lc : Bool) (docroot : Bytes) (isdir : Bytes → Bool)
+    (rawHost target p d : Bytes)
+    (h : servePath o lc docroot .none isdir [] rawHost target = .path p d) :
+    d = docroot ∧ ∃ r, CanonicalAbs r ∧ p = stripSlash docroot ++ r := by
+  unfold servePath at h
+  cases ht : parseTarget o false target with
+  | error e => simp [ht] at h
+  | ok t =>
+    simp only [ht] at h
+    cases ha : authorityOf o 80 rawHost with
+    | none => simp [ha] at h
+    | some au =>
+      simp only [ha, List.isEmpty_nil, if_true, ServeRes.path.injEq] at h
+      obtain ⟨r, hr, he, _⟩ := c02_docroot_contained lc docroot t.path (c02_uri_path_canonical o target t ht)
+      exact ⟨h.2.symm, r, hr, by rw [← h.1, he]⟩
+
+/-- mod_alias_remap() with a well-formed table (alias targets canonical absolute paths): the request is
+    refused (403), or left alone, or remapped to target ++ rest-of-url where the result has no "." or
+    ".." segment and starts with the target - for every canonical url-path, every table, with and
+    without force-lowercase-filenames.  (The guard is what makes key "/a" => "/v/" with "/a../x" safe.) -/
+theorem c02_alias_contained (lc : Bool) (aliases : List (Bytes × Bytes)) (basedir uri : Bytes)
+    (hu : CanonicalAbs uri) (hwf : ∀ kv ∈ aliases, CanonicalAbs kv.2) :
+    aliasRemap lc aliases basedir (stripSlash basedir ++ uri) = .forbidden ∨
+    aliasRemap lc aliases basedir (stripSlash basedir ++ uri) = .go (stripSlash basedir ++ uri) basedir ∨
+    ∃ k v, (k, v) ∈ aliases ∧
+      aliasRemap lc aliases basedir (stripSlash basedir ++ uri) = .go (v ++ uri.drop k.length) v ∧
+      NoDotSeg (v ++ uri.drop k.length) ∧ (v ++ uri.drop k.length).head? = some slash := by
+  have hlen : (if endsWithSlash basedir then basedir.length - 1 else basedir.length)
+      = (stripSlash basedir).length := by
+    unfold stripSlash; split <;> simp
+  have hune := canonical_ne_nil hu
+  unfold aliasRemap
+  simp only [hlen, List.drop_left]
+  have hnot : ((stripSlash basedir ++ uri).length = 0 ||
+      (stripSlash basedir ++ uri).length < (stripSlash basedir).length) = false := by
+    have : 0 < uri.length := List.length_pos_iff.mpr hune
+    simp only [List.length_append, Bool.or_eq_false_iff, decide_eq_false_iff_not]
+    omega
+  simp only [hnot, Bool.false_eq_true, if_false]
+  cases hm : aliasMatch lc uri aliases with
+  | none => right; left; rfl
+  | some kv =>
+    obtain ⟨k, v⟩ := kv
+    simp only
+    obtain ⟨hmem, hkl, heq⟩ := aliasMatch_spec hm
+    have hv := hwf _ hmem
+    cases hg : aliasGuard k v (uri.drop k.length) with
+    | true => left; simp
+    | false =>
+      right; right
+      refine ⟨k, v, hmem, by simp, ?_, ?_⟩
+      · have hke : (uri.take k.length = []) ↔ k = [] := by
+          cases lc
+          · simp only [Bool.false_eq_true, if_false] at heq; rw [heq]
+          · simp only [if_true] at heq; exact eqIcase_nil_iff heq
+        have hks : endsWithSlash (uri.take k.length) = endsWithSlash k := by
+          cases lc
+          · simp only [Bool.false_eq_true, if_false] at heq; rw [heq]
+          · simp only [if_true] at heq; exact eqIcase_endsWithSlash heq
+        exact alias_noDotSeg hu hv hkl hke hks hg
+      · have := canonical_head hv
+        cases v with
+        | nil => simp at this
+        | cons x xs => simpa using this
+
+example : aliasRemap false [(ofString "/foo", ofString "/var/tmp/")] (ofString "/tmp") (ofString "/tmp/foo../bad")
+    = .forbidden := by decide
+example : aliasRemap false [(ofString "/foo/", ofString "/var/tmp/")] (ofString "/tmp") (ofString "/tmp/foo/x/y")
+    = .go (ofString "/var/tmp/x/y") (ofString "/var/tmp/") := by decide
+
+/-- http_response_xsendfile(): with x-sendfile-docroot configured (entries absolute), a path handed to
+    the file layer is canonical and has a configured docroot as prefix (case-insensitively with
+    force-lowercase-filenames) - for every backend-supplied value -/
+theorem c02_xsendfile_contained (lc : Bool) (xdoc : List Bytes) (raw p : Bytes)
+    (hx : xdoc ≠ []) (hwf : ∀ x ∈ xdoc, x.head? = some slash)
+    (h : xsendfilePath lc xdoc raw = .send p) :
+    CanonicalAbs p ∧ ∃ x ∈ xdoc, isPrefixOf lc x p = true ∧ (lc = false → ∃ rest, p = x ++ rest) := by
+  unfold xsendfilePath at h
+  simp only at h
+  split at h
+  · simp at h
+  · split at h
+    · simp at h
+    · rename_i hunder
+      split at h
+      · simp at h
+      · simp only [XsfRes.send.injEq] at h
+        subst h
+        simp only [Bool.not_eq_true, Bool.not_eq_false', Bool.or_eq_true, List.isEmpty_iff,
+                   List.any_eq_true] at hunder
+        rcases hunder with e | ⟨x, hxm, hpre⟩
+        · exact absurd e hx
+        · have hhead := isPrefixOf_head hpre (hwf x hxm)
+          refine ⟨?_, x, hxm, hpre, ?_⟩
+          · cases lc
+            · simp only [Bool.false_eq_true, if_false] at hhead ⊢
+              exact pathSimplify_head_canonical _ hhead
+            · simp only [if_true] at hhead ⊢
+              have := pathSimplify_head_canonical _ (lowerBytes_head_slash hhead)
+              simpa [lowerBytes] using canonical_map_toLower this
+          · intro hl; subst hl; exact isPrefixOf_exact hpre
+
+/-- the same for the first element of an X-Sendfile2 value -/
+theorem c02_xsendfile2_contained (lc : Bool) (xdoc : List Bytes) (value p : Bytes)
+    (hx : xdoc ≠ []) (hwf : ∀ x ∈ xdoc, x.head? = some slash)
+    (h : xsendfile2First lc xdoc value = .send p) :
+    CanonicalAbs p ∧ ∃ x ∈ xdoc, isPrefixOf lc x p = true := by
+  unfold xsendfile2First at h
+  simp only at h
+  split at h
+  · simp at h
+  · split at h
+    · simp at h
+    · split at h
+      · simp at h
+      · split at h
+        · simp at h
+        · split at h
+          · simp at h
+          · rename_i hunder
+            simp only [XsfRes.send.injEq] at h
+            subst h
+            simp only [Bool.not_eq_true, Bool.not_eq_false', Bool.or_eq_true, List.isEmpty_iff,
+                       List.any_eq_true] at hunder
+            rcases hunder with e | ⟨x, hxm, hpre⟩
+            · exact absurd e hx
+            · have hhead := isPrefixOf_head hpre (hwf x hxm)
+              refine ⟨?_, x, hxm, hpre⟩
+              cases lc
+              · simp only [Bool.false_eq_true, if_false] at hhead ⊢
+                exact pathSimplify_head_canonical _ hhead
+              · simp only [if_true] at hhead ⊢
+                have := pathSimplify_head_canonical _ (lowerBytes_head_slash hhead)
+                simpa [lowerBytes] using canonical_map_toLower this
+
+example : xsendfilePath false [ofString "/srv/files/"] (ofString "/srv/files/%2e%2e/%2e%2e/etc/passwd")
+    = .status 403 := by decide
+example : xsendfilePath false [ofString "/srv/files/"] (ofString "/srv/x/../files/a%2fb")
+    = .send (ofString "/srv/files/a/b") := by decide
+
+/-- mod_webdav_copymove_b(): an accepted Destination yields a canonical absolute destination url-path,
+    and - when the request's physical path is doc_root + rel_path (no alias in play) - the destination
+    physical path is doc_root + that url-path: lexically under the document root, for every Destination
+    header, scheme/authority spelling and source -/
+theorem c02_dav_destination_contained (lc : Bool) (scheme authority docroot srcRel S dest d p : Bytes)
+    (hS : endsWithSlash S = false)
+    (h : davDestination lc scheme authority docroot srcRel (S ++ srcRel) dest = .ok d p) :
+    CanonicalAbs d ∧ p = S ++ d := by
+  unfold davDestination at h
+  cases hr : davDstRel lc scheme authority dest with
+  | error st => simp [hr] at h
+  | ok d0 =>
+    simp only [hr] at h
+    have hc := davDstRel_canonical hr
+    split at h
+    · simp at h
+    · split at h
+      · simp at h
+      · split at h
+        · simp at h
+        · simp only [DavDst.ok.injEq] at h
+          obtain ⟨rfl, rfl⟩ := h
+          exact ⟨hc, davDstPath_plain hc hS⟩
+
+/-- in general (source remapped by mod_alias) the destination url-path is still canonical -/
+theorem c02_dav_destination_canonical (lc : Bool) (scheme authority docroot srcRel srcPath dest d p : Bytes)
+    (h : davDestination lc scheme authority docroot srcRel srcPath dest = .ok d p) :
+    CanonicalAbs d ∧ p = davDstPath docroot srcRel srcPath d := by
+  unfold davDestination at h
+  cases hr : davDstRel lc scheme authority dest with
+  | error st => simp [hr] at h
+  | ok d0 =>
+    simp only [hr] at h
+    have hc := davDstRel_canonical hr
+    split at h
+    · simp at h
+    · split at h
+      · simp at h
+      · split at h
+        · simp at h
+        · simp only [DavDst.ok.injEq] at h
+          obtain ⟨rfl, rfl⟩ := h
+          exact ⟨hc, rfl⟩
+
+example : davDestination false (ofString "http") (ofString "h:1") (ofString "/srv/www/") (ofString "/dav/a.txt")
+    (ofString "/srv/www/dav/a.txt") (ofString "http://h:1/dav/%2e%2e/%2e%2e/etc/x")
+    = .ok (ofString "/etc/x") (ofString "/srv/www/etc/x") := by decide
+
+/-- stat_cache_path_contains_symlink(): result 0 (the only result with which a request is served when
+    server.follow-symlink is disabled) means that the path and every prefix of it ending before a '/'
+    (except the root) exists and is not a symbolic link - for every filesystem and every path -/
+theorem c02_symlink_walk (fs : Bytes → FsKind) (name : Bytes) (hlen : 1 < name.length)
+    (h : symlinkServed false fs name = true) :
+    fsOk (fs name) ∧ ∀ i, 0 < i → i < name.length → name.getD i 0 = slash → fsOk (fs (name.take i)) := by
+  unfold symlinkServed at h
+  simp only [Bool.false_or, decide_eq_true_eq] at h
+  unfold symWalk at h
+  split at h
+  · simp at h
+  · split at h
+    · simp at h
+    · split at h
+      · omega
+      · split at h
+        · simp at h
+        · exact symLoop_zero fs _ name rfl h
+
+example : symWalk (fun p => if p = ofString "/a/b" then .link else .dir) (ofString "/a/b/c") = 1 := by decide
+example : symlinkServed false (fun p => if p = ofString "/a/b/c" then .file else .dir) (ofString "/a/b/c") = true := by
+  decide
 
 end LtVerif.C02
